@@ -1,4 +1,6 @@
 import ScVerif.C17.PipelineLemmas
+import ScVerif.C17.PipelineFlow
+import ScVerif.C17.PipelineSettle
 /-!
 # C17 — everything started for the members of a Group subscription ends once the subscription is cancelled
 
@@ -52,15 +54,17 @@ theorem C17_pull_pipeline_progress [DecidableEq V] (P : Params V) (c c' : Cfg V)
     (hi : lbl.internal = true) (h : step P c lbl = some c') : c'.work < c.work :=
   step_work P c c' lbl hi h
 
-/-- **C17_pull_pipeline_forwards_loop.** For every schedule from the start of the subscription, what
+/-- **C17_pull_pipeline_forwards_loop.** For every schedule from the start of the subscription (`Cfg.init`: the strategies that run their members
+side by side; `Cfg.initSeq`: strategy One, which calls them one after the other), what
 the subscriber has been sent (and the loop's `lastChange` / `memberChanges`) is the sequential Pull loop
 of `Adapters.lean` run on the messages the loop has taken from its members, in the order taken: the
 theorems of `PropsAdapters.lean` (never the same value twice in a row, convergence to the reduction of
 the members' latest values) speak about the pipeline's output under every interleaving. -/
-theorem C17_pull_pipeline_forwards_loop [DecidableEq V] (P : Params V) (n : Nat) (sched : List (Lbl V))
-    (c : Cfg V) (hrun : run P (Cfg.init n) sched = some c) :
+theorem C17_pull_pipeline_forwards_loop [DecidableEq V] (P : Params V) (n : Nat) (c₀ : Cfg V)
+    (h₀ : c₀ = Cfg.init n ∨ c₀ = Cfg.initSeq n) (sched : List (Lbl V))
+    (c : Cfg V) (hrun : run P c₀ sched = some c) :
     c.st = pullRun P.red n (c.log.map fun e => (e.1, [e.2])) :=
-  run_logInv P n sched _ c hrun (by simp [Cfg.logInv, Cfg.init, pullRun])
+  run_logInv P n sched _ c hrun (by rcases h₀ with rfl | rfl <;> simp [Cfg.logInv, Cfg.init, Cfg.initSeq, pullRun])
 
 /-- **C17_bare_send_leak_is_permanent.** The variant of `SendMsg` without the watch on the context (an
 up-front `ctx.Err()` check and a bare `serverSend <- m`: seeded change 15): a device handler that is
@@ -100,7 +104,7 @@ handler is still inside `SendMsg` with its third report. -/
 theorem C17_bare_send_would_leak :
     ∃ c : Cfg Nat, run (onoffParams false 1) (Cfg.init 1) stallSchedule = some c
       ∧ c.loop = .returned ∧ c.execDone = true ∧ c.parked 0 ∧ c.left = 1
-      ∧ (succs (onoffParams false 1) c).isEmpty = true := by
+      ∧ (∀ lbl : Lbl Nat, lbl.internal = true → step (onoffParams false 1) c lbl = none) := by
   have h : holdsAfter (onoffParams false 1) 1 stallSchedule (fun c =>
       c.loop == .returned && c.execDone && laneIs c 0 (.sending 1) .ended && c.left == 1
         && (succs (onoffParams false 1) c).isEmpty) = true := by decide
@@ -109,7 +113,7 @@ theorem C17_bare_send_would_leak :
   · next c hc =>
     simp only [Bool.and_eq_true, beq_iff_eq] at h
     obtain ⟨⟨⟨⟨h1, h2⟩, h3⟩, h4⟩, h5⟩ := h
-    refine ⟨c, hc, h1, h2, ?_, h4, h5⟩
+    refine ⟨c, hc, h1, h2, ?_, h4, (succs_isEmpty_iff _ c).mp h5⟩
     unfold laneIs at h3
     split at h3
     · next l hl =>
@@ -131,5 +135,95 @@ example : holdsAfter (onoffParams true 1) 1 (stallSchedule.take 10) (fun c =>
     c.cancelled && c.left == 2 && c.loop == .draining && c.work == 9
       && laneIs c 0 (.sending 1) (.holding 2)) = true := by
   decide
+
+/-- **C17_pull_lane_fifo.** For every schedule from the start of a subscription over `n` devices (devices
+reporting and failing, the subscriber answering or not, cancellations, every interleaving of the threads) and
+every device `i` (also under strategy One, where a device waits for its turn - a lane whose turn has not come
+counts as alive): the values the loop has taken from member `i`, followed by the one the member closure holds,
+are a prefix of what the device was told to report - nothing is duplicated, nothing overtakes, nothing is
+invented on the way through the handler, the wrap stream and the member closure; and while both the handler
+and the member closure of the lane are alive nothing is lost either: delivered ++ held ++ inside `SendMsg` ++
+still waiting is EXACTLY the device's instruction sequence. -/
+theorem C17_pull_lane_fifo [DecidableEq V] (P : Params V) (n : Nat) (c₀ : Cfg V)
+    (h₀ : c₀ = Cfg.init n ∨ c₀ = Cfg.initSeq n) (sched : List (Lbl V)) (c : Cfg V)
+    (hrun : run P c₀ sched = some c) (i : Nat) (l : Lane V) (hl : c.lanes[i]? = some l) :
+    (l.alive = true → (c.delivered i).map some ++ l.inflight = pokes i sched)
+    ∧ (c.delivered i ++ l.m.held).map some <+: pokes i sched := by
+  have h0 : FlowInv c₀ i [] := by
+    rcases h₀ with rfl | rfl
+    · exact flow_init n i
+    · exact flow_initSeq n i
+  have := run_flow P sched c₀ c i [] hrun h0
+  have := (this l hl).2
+  simpa using this
+
+/-- **C17_pull_quiescent_all_delivered.** ... and when the subscriber keeps up: at any point of any schedule at
+which lane `i` cannot move (its handler has nothing to start, no hand-over is possible) while the loop is in its
+select and both threads of the lane are alive, EVERY report the device was told to make has reached the loop. -/
+theorem C17_pull_quiescent_all_delivered [DecidableEq V] (P : Params V) (n : Nat) (sched : List (Lbl V)) (c : Cfg V)
+    (hrun : run P (Cfg.init n) sched = some c) (i : Nat) (l : Lane V) (hl : c.lanes[i]? = some l)
+    (halive : l.alive = true) (hstarted : l.m.isNotStarted = false) (hloop : c.loop = .selecting)
+    (h1 : step P c (.hStart i) = none) (h2 : step P c (.hand i) = none) (h3 : step P c (.give i) = none) :
+    (c.delivered i).map some = pokes i sched := by
+  have hf := (C17_pull_lane_fifo P n _ (Or.inl rfl) sched c hrun i l hl).1 halive
+  have hm : l.m = .recv := by
+    simp only [step, hl, hloop] at h3
+    cases hm : l.m with
+    | notStarted => simp [hm, MSt.isNotStarted] at hstarted
+    | recv => rfl
+    | holding v => simp [hm] at h3
+    | ended => simp [Lane.alive, hm, MSt.isEnded] at halive
+  have hh : l.h = .idle := by
+    have := onLane_none_of c i _ l hl h2
+    cases hh : l.h with
+    | idle => rfl
+    | sending v => simp [handLane, hh, hm] at this
+    | ended => simp [Lane.alive, hh, HSt.isEnded, hstarted] at halive
+  have hp : l.pend = [] := by
+    have := onLane_none_of c i _ l hl h1
+    cases hp : l.pend with
+    | nil => rfl
+    | cons x xs => cases x <;> simp [hStartLane, hh, hp] at this <;> split at this <;> simp at this
+  rw [← hf]
+  simp [Lane.inflight, hm, hh, hp, MSt.held, HSt.inSendMsg]
+
+/-- non-vacuity: after two reports with an answering subscriber both have been delivered, the lane is alive and at rest -/
+example : holdsAfter (onoffParams true 1) 1
+    [.poke 0 (some 1), .hStart 0, .hand 0, .give 0, .sendOk, .poke 0 (some 2), .hStart 0, .hand 0, .give 0, .sendOk]
+    (fun c => c.delivered 0 == [1, 2] && c.loop == .selecting && laneIs c 0 .idle .recv
+      && (succs (onoffParams true 1) c).isEmpty) = true := by decide
+
+/-- Strategy One, non-vacuity: the first device fails, the second gets its turn and delivers; then the subscriber
+cancels and everything ends - and a member whose turn comes after the cancellation is refused by the in-process
+client (no handler is started). -/
+example :
+    (match run (⟨true, 2, 2, onoffReduceChanges⟩ : Params Nat) (Cfg.initSeq 2)
+        [.mStart 0, .poke 0 none, .hStart 0, .mEof 0, .mStart 1, .poke 1 (some 1), .hStart 1, .hand 1, .give 1,
+         .cancel, .hCtx 1, .mCtx 1, .execRet, .sendFail, .loopErr] with
+      | some c => c.delivered 1 == [1] && c.left == 0 && c.loop == .returned && laneIs c 1 .ended .ended
+      | none => false) = true
+    ∧ (match run (⟨true, 2, 2, onoffReduceChanges⟩ : Params Nat) (Cfg.initSeq 2)
+        [.mStart 0, .cancel, .mCtx 0, .hCtx 0, .mStart 1, .execRet, .loopErr] with
+      | some c => c.left == 0 && c.loop == .returned && laneIs c 1 .ended .ended && c.work == 0
+      | none => false) = true := by decide
+
+/-- **C17_pipe_settle_sound.** What the driver answers the harness with (`Pipe.settle`: the set of states an
+observation made on the real goroutines is looked up in) contains only points of quiescence the model really has:
+every state it returns is reached from one of the given states by steps of the pipeline's own threads (the ghost
+log dropped - no step reads it), and in it no thread of the pipeline can move.  So the tie `group-pull-pipeline`
+never accepts an observation the model does not allow - including the two economies of the exploration (the calm-state
+reduction and the layer-wise removal of duplicates). -/
+theorem C17_pipe_settle_sound [DecidableEq V] (P : Params V) (cs : List (Cfg V)) (c : Cfg V) (h : c ∈ settle P cs) :
+    (∃ c₀ ∈ cs, ∃ (ls : List (Lbl V)) (c' : Cfg V),
+        (∀ l ∈ ls, l.internal = true) ∧ run P c₀ ls = some c' ∧ eraseLog c' = c)
+    ∧ (∀ lbl : Lbl V, lbl.internal = true → step P c lbl = none) :=
+  settle_sound P cs c h
+
+/-- non-vacuity: two devices that have each been told to report twice, nobody answering the subscriber: the
+exploration finds exactly two points of quiescence (the loop took device 0's first report, or device 1's). -/
+example :
+    (match run (onoffParams true 2) (Cfg.init 2) [.poke 0 (some 1), .poke 1 (some 2), .poke 0 (some 2), .poke 1 (some 1)] with
+      | some c => ((settle (onoffParams true 2) [c]).map fun c => (c.st.sent, c.lanes.map (·.acc))).length
+      | none => 0) = 2 := by decide
 
 end ScVerif.C17
